@@ -2,6 +2,7 @@ package main
 
 import (
 	"fmt"
+	"go/ast"
 	"go/token"
 	"go/types"
 	"sort"
@@ -100,6 +101,33 @@ func VerifyFunc(L *Loaded, fn *ssa.Function, con *FuncContract, opt runOpts) *Un
 	}()
 	e.safety = con == nil || len(con.safetyProps) > 0 || opt.sweep
 	if con != nil {
+		e.topConPkg = con.pkg
+	}
+	if con != nil && con.implOf != nil {
+		// implementation of an interface method verified against the interface contract: self = the boxed receiver,
+		// parameters are addressed by the names used in the interface declaration
+		e.ctx = shortFuncName(fn) + "$impl"
+		ur.Name, ur.Func = e.ctx, e.ctx
+		sig := con.implOf
+		e.envAlias = func(env *evalEnv, args []Val) {
+			rt := fn.Params[0].Type()
+			env.vars["self"] = SV{t: e.tb.Box(e.typeKey(rt), e.sortOf(rt), args[0].t()), typ: con.implIface}
+			var names []string
+			if p, ok := con.opts["params"]; ok {
+				names = strings.Split(p, ",")
+			}
+			for i := 0; i < sig.Params().Len() && i+1 < len(args); i++ {
+				n := sig.Params().At(i).Name()
+				if i < len(names) {
+					n = strings.TrimSpace(names[i])
+				}
+				if n != "" && n != "_" {
+					env.vars[n] = SV{t: args[i+1].t(), typ: fn.Params[i+1].Type(), addr: args[i+1].Addr}
+				}
+			}
+		}
+	}
+	if con != nil {
 		for _, cls := range [][]clause{con.requires, con.ensures} {
 			for _, cl := range cls {
 				if strings.Contains(cl.text, "log") {
@@ -124,6 +152,9 @@ func (e *Enc) runBody(fn *ssa.Function, con *FuncContract, ur *UnitResult) {
 	st := State{reach: tb.True(), heap: map[string]*Term{}}
 	args := e.setupParams(fn)
 	entry := st.clone()
+	if fn.Signature.Recv() != nil && len(args) > 0 {
+		e.applyTypeInvs(nil, &entry, fn.Params[0].Type(), args[0].t(), "assume", tb.True(), token.NoPos)
+	}
 	if con != nil {
 		env := e.entryEnv(fn, args, &entry)
 		for _, cl := range con.requires {
@@ -192,18 +223,26 @@ func (e *Enc) finish(ur *UnitResult, opt runOpts) {
 			continue
 		}
 		switch q.Kind {
-		case "ensures", "loop-entry", "loop-preserved", "callpre", "cover", "contract-target", "frame", "closure", "lemma", "assert":
+		case "ensures", "loop-entry", "loop-preserved", "callpre", "cover", "contract-target", "frame", "closure", "lemma", "assert", "typeinv":
 			ur.Props[q.Name] = con.props
 		default:
 			ur.Props[q.Name] = con.safetyProps
 		}
 	}
+	e.addAxioms()
 	ur.Queries = e.queries
 	ur.Notes = e.notes
 	for a := range e.assumptionLog {
 		ur.Assumptions = append(ur.Assumptions, a)
 	}
 	sort.Strings(ur.Assumptions)
+	if opt.claimed != nil {
+		for _, q := range e.queries {
+			if !opt.claimed[q.Name] && !q.Cover {
+				q.Short = true
+			}
+		}
+	}
 	u := &Unit{Name: ur.Name, tb: e.tb, assumes: e.assumes, queries: e.queries, hints: e.hints}
 	t1 := time.Now()
 	ur.Results = u.Solve(opt.solvers, opt.timeoutMs, opt.seed, opt.agree, opt.dumpDir)
@@ -219,10 +258,10 @@ func (e *Enc) topCon() *FuncContract {
 
 // frameAllow evaluates the `assigns` clause of a contract into allowed locations per register.
 type allowedLoc struct {
-	ref *Term
-	all bool  // whole row (elem registers)
-	idx *Term // single element
-	anyRef bool // every object (register-level assigns)
+	ref    *Term
+	all    bool  // whole row (elem registers)
+	idx    *Term // single element
+	anyRef bool  // every object (register-level assigns)
 }
 
 func (e *Enc) frameAllow(fr *Frame, con *FuncContract) (map[string][]allowedLoc, error) {
@@ -362,4 +401,90 @@ func regLabel(e *Enc, n string) string {
 		return "[]" + s
 	}
 	return n
+}
+
+// addAxioms evaluates the `axiom` clauses whose ghost functions occur in this unit and asserts them as background.
+func (e *Enc) addAxioms() {
+	changed := true
+	done := map[*Lemma]bool{}
+	for changed {
+		changed = false
+		for _, ax := range e.L.contracts.axioms {
+			if done[ax] {
+				continue
+			}
+			uses := false
+			for name := range e.L.contracts.ghosts {
+				if e.tb.declSet[sanitize("ghost_"+name)] && containsIdent(ax.text, name) {
+					uses = true
+				}
+			}
+			if !uses || !e.axiomTypesPresent(ax) {
+				continue
+			}
+			done[ax] = true
+			changed = true
+			st := State{reach: e.tb.True(), heap: map[string]*Term{}}
+			env := &evalEnv{e: e, st: &st, old: &st, vars: map[string]SV{}, bound: map[string]SV{}, pkg: e.L.typesPkg(ax.pkg)}
+			t, err := env.evalBool(ax.expr)
+			if err != nil {
+				e.contractError(nil, "axiom:"+ax.name, err)
+				continue
+			}
+			e.tb.axioms = append(e.tb.axioms, t)
+			e.modelled("axiom " + ax.name + ": " + ax.text)
+		}
+	}
+}
+
+func containsIdent(text, name string) bool {
+	i := 0
+	for {
+		j := strings.Index(text[i:], name)
+		if j < 0 {
+			return false
+		}
+		j += i
+		okL := j == 0 || !isIdentChar(text[j-1])
+		okR := j+len(name) >= len(text) || !isIdentChar(text[j+len(name)])
+		if okL && okR {
+			return true
+		}
+		i = j + len(name)
+	}
+}
+
+// axiomTypesPresent: an axiom `forall x T, ... :: ...` about a concrete (non-interface) type T is only relevant to a
+// unit in which values of T are boxed into interfaces (its constructor of the Iface datatype exists).
+func (e *Enc) axiomTypesPresent(ax *Lemma) bool {
+	call, ok := ax.expr.(*ast.CallExpr)
+	if !ok {
+		return true
+	}
+	id, ok := call.Fun.(*ast.Ident)
+	if !ok || (id.Name != "forallT_" && id.Name != "existsT_") {
+		return true
+	}
+	fl, ok := call.Args[0].(*ast.FuncLit)
+	if !ok {
+		return true
+	}
+	st := State{reach: e.tb.True(), heap: map[string]*Term{}}
+	env := &evalEnv{e: e, st: &st, old: &st, vars: map[string]SV{}, bound: map[string]SV{}, pkg: e.L.typesPkg(ax.pkg)}
+	for _, f := range fl.Type.Params.List {
+		t, err := env.tryType(f.Type)
+		if err != nil {
+			return true
+		}
+		if _, isIface := t.Underlying().(*types.Interface); isIface {
+			continue
+		}
+		if _, isStruct := t.Underlying().(*types.Struct); !isStruct {
+			continue
+		}
+		if _, ok := e.tb.ifaceByKey[e.typeKey(t)]; !ok {
+			return false
+		}
+	}
+	return true
 }
